@@ -118,26 +118,6 @@ theorem resolve_rel_nonneg (f l d ns : Int) (h : 0 ≤ ns) : resolve f l d (.rel
 theorem resolve_rel_neg (f l d ns : Int) (h : ns < 0) : resolve f l d (.rel ns) = l + ns := by
   simp only [resolve]; rw [if_neg (by omega)]
 
-theorem mem_samplesFrom (dt : Int) (hdt : 0 < dt) :
-    ∀ (l : List Int) (t0 : Int) (x : Sample), x ∈ samplesFrom t0 dt l →
-      t0 ≤ x.1 ∧ x.1 < t0 + l.length * dt := by
-  intro l
-  induction l with
-  | nil => intro t0 x hx; simp [samplesFrom] at hx
-  | cons v vs ih =>
-    intro t0 x hx
-    simp only [samplesFrom, List.mem_cons] at hx
-    have e : ((vs.length + 1 : Nat) : Int) * dt = vs.length * dt + dt := by
-      rw [Int.natCast_add, Int.add_mul]; omega
-    have hnn : 0 ≤ (vs.length : Int) * dt := Int.mul_nonneg (by omega) (by omega)
-    rcases hx with hx | hx
-    · subst hx
-      simp only [List.length_cons]
-      rw [e]; omega
-    · have := ih (t0 + dt) x hx
-      simp only [List.length_cons]
-      rw [e]; omega
-
 /-- A continuous channel's own `[start, stop)` contains all of its samples, so `s[:]` (both bounds
     `None`) returns every sample. -/
 theorem cont_getitem_none (c : Cont) (hdt : 0 < c.dt) :
@@ -323,5 +303,929 @@ theorem parse_canonical (gs : List Grp) (hwf : ∀ g ∈ gs, g.WF)
 example : parseTime "1h 30m15s" = some 5415000000000 := by decide
 example : (⟨[], ['1'], 1⟩ : Grp).str ++ (⟨[' '], ['3', '0'], 2⟩ : Grp).str ++ (⟨[], ['1', '5'], 3⟩ : Grp).str
     = "1h 30m15s".toList := by decide
+
+/-! # Deepening round D -/
+
+/-- Well-formed sources. -/
+def Src.WF : Src → Prop
+  | .cont c => 0 < c.dt
+  | .ts l => l.Pairwise (fun x y => x.1 ≤ y.1)
+  | .tags t => ∀ x ∈ t.data, t.start ≤ x ∧ x < t.stop
+
+theorem wf_dt (s : Src) (h : s.WF) : ∀ c, s = .cont c → 0 < c.dt := by
+  intro c hc; subst hc; exact h
+
+theorem wf_slice (s : Src) (h : s.WF) (a b : Int) : (s.slice a b).WF := by
+  cases s with
+  | cont c => exact h
+  | ts l => exact List.Pairwise.sublist List.filter_sublist h
+  | tags t =>
+    intro x hx
+    simp only [Src.slice, Tags.slice, Tags.init, List.mem_filter, Bool.and_eq_true, decide_eq_true_eq] at hx ⊢
+    omega
+
+theorem wf_getitem (s : Src) (h : s.WF) (a b : Bound) : (s.getitem a b).WF := by
+  unfold Src.getitem
+  split
+  · exact h
+  · exact wf_slice s h _ _
+
+/-- Every sample of a well-formed non-empty source lies in the source's own `[start, stop)`. -/
+theorem wf_samples_in_bounds (s : Src) (h : s.WF) (x : Sample) (hx : x ∈ s.samples) :
+    s.start ≤ x.1 ∧ x.1 < s.stop := by
+  cases s with
+  | cont c => exact mem_samplesFrom c.dt h c.data c.start x hx
+  | ts l =>
+    simp only [Src.samples] at hx
+    simp only [Src.start, Src.stop]
+    cases hh : l.head? with
+    | none => rw [List.head?_eq_none_iff.mp hh] at hx; simp at hx
+    | some y =>
+      cases hl : l.getLast? with
+      | none => rw [List.getLast?_eq_none_iff.mp hl] at hx; simp at hx
+      | some z =>
+        have h1 := pairwise_head_le l h x y hh hx
+        have h2 := pairwise_le_last l h x z hl hx
+        simp only [Option.map_some, Option.getD_some]
+        omega
+  | tags t =>
+    simp only [Src.samples, Tags.samples, List.mem_map] at hx
+    obtain ⟨y, hy, rfl⟩ := hx
+    exact h y hy
+
+
+/-! constructors establish the invariant -/
+
+/-- `TimeTags(data)` with chronological data: the default bounds enclose the data. -/
+theorem tags_init_wf (ts : List Int) (h : ts.Pairwise (· ≤ ·)) : (Src.tags (Tags.init ts none none)).WF := by
+  intro x hx
+  simp only [Tags.init] at hx ⊢
+  have hs := pairwise_map_fst ts h
+  have hm : ((x, x) : Sample) ∈ ts.map fun x => ((x, x) : Sample) := List.mem_map.mpr ⟨x, hx, rfl⟩
+  cases hh : ts.head? with
+  | none => rw [List.head?_eq_none_iff.mp hh] at hx; simp at hx
+  | some y =>
+    cases hl : ts.getLast? with
+    | none => rw [List.getLast?_eq_none_iff.mp hl] at hx; simp at hx
+    | some z =>
+      have h1 := pairwise_head_le _ hs (x, x) (y, y) (by simp [List.head?_map, hh]) hm
+      have h2 := pairwise_le_last _ hs (x, x) (z, z) (by simp [List.getLast?_map, hl]) hm
+      simp only [Option.getD_some, Option.map_some]
+      simp only at h1 h2
+      omega
+
+/-- `None` on both sides returns every sample — all three kinds. -/
+theorem getitem_none_all (s : Src) (h : s.WF) : (s.getitem .none .none).samples = s.samples := by
+  by_cases hne : s.len = 0
+  · rw [getitem_empty _ hne]
+  · rw [getitem_spec _ hne (wf_dt s h)]
+    simp only [resolve]
+    rw [List.filter_eq_self]
+    intro x hx
+    have := wf_samples_in_bounds s h x hx
+    simp [inWin, this.1, this.2]
+
+/-- A window bound as the user may give it at any level: `None` or an integer. -/
+def optBound : Option Int → Bound
+  | none => .none
+  | some t => .ts t
+
+/-- the constraint a lower / upper bound puts on a timestamp (`None`: no constraint) -/
+def okLo (a : Option Int) (x : Sample) : Bool := match a with | none => true | some a => decide (a ≤ x.1)
+def okHi (b : Option Int) (x : Sample) : Bool := match b with | none => true | some b => decide (x.1 < b)
+
+/-- `s[a:b]` with `None` allowed on either side keeps exactly the samples satisfying the bounds that were given. -/
+theorem getitem_opt_spec (s : Src) (h : s.WF) (a b : Option Int) :
+    (s.getitem (optBound a) (optBound b)).samples = s.samples.filter (fun x => okLo a x && okHi b x) := by
+  by_cases hne : s.len = 0
+  · rw [getitem_empty _ hne]
+    have : s.samples = [] := List.length_eq_zero_iff.mp (by rw [← len_eq_samples_length]; exact hne)
+    rw [this]; rfl
+  · rw [getitem_spec _ hne (wf_dt s h)]
+    apply List.filter_congr
+    intro x hx
+    have := wf_samples_in_bounds s h x hx
+    rw [Bool.eq_iff_iff]
+    have ea : resolve s.start s.stop s.start (optBound a) = a.getD s.start := by cases a <;> rfl
+    have eb : resolve s.start s.stop s.stop (optBound b) = b.getD s.stop := by cases b <;> rfl
+    rw [ea, eb]
+    cases a <;> cases b <;> simp [okLo, okHi, inWin, this.1, this.2]
+
+/-- Composition with `None` in any of the four positions: `s[a:b][c:d]` keeps exactly the samples that satisfy
+    every bound that was given (= `s[max(a,c):min(b,d)]` when all four are integers). -/
+theorem getitem_compose_opt (s : Src) (h : s.WF) (a b c d : Option Int) :
+    ((s.getitem (optBound a) (optBound b)).getitem (optBound c) (optBound d)).samples =
+      s.samples.filter (fun x => okLo a x && okLo c x && okHi b x && okHi d x) := by
+  rw [getitem_opt_spec _ (wf_getitem s h _ _), getitem_opt_spec s h, List.filter_filter]
+  apply List.filter_congr
+  intro x _
+  cases okLo a x <;> cases okLo c x <;> cases okHi b x <;> cases okHi d x <;> rfl
+
+/-- The hypothesis is needed for time series: a series stored out of chronological order has "begin" 5 and
+    "end" 4, and `s[:]` loses every sample (kernel-checked). -/
+theorem getitem_none_needs_sorted :
+    ((Src.ts [(5, 0), (3, 1)]).getitem .none .none).samples ≠ (Src.ts [(5, 0), (3, 1)]).samples := by decide
+
+example : (Src.ts [(3, 0), (5, 1), (5, 2), (9, 3)]).WF := by
+  simp [Src.WF]
+example : (Src.cont ⟨7, 3, [0, 1, 2]⟩).WF := by simp [Src.WF]
+
+
+/-! ## the whole `Slice.__getitem__` -/
+
+/-- A bound argument is an invalid time string. -/
+def BoundArg.invalid : BoundArg → Bool
+  | .str s => (parseTime s).isNone
+  | _ => false
+
+/-- The bound a well-formed argument stands for. -/
+def BoundArg.toBound : BoundArg → Bound
+  | .none => .none
+  | .int t => .ts t
+  | .str s => .rel ((parseTime s).getD 0)
+  | .other => .none
+
+/-- Decision table of the window branch of `Slice.__getitem__` (the code takes these decisions one after the
+    other while converting; the table says which outcome every combination of arguments has):
+    empty source → itself, whatever the bounds; else an invalid time string on either side → `RuntimeError`;
+    else a bound that is neither `None`, an integer nor a string → `TypeError`; else the samples inside the window. -/
+theorem window_table (s : Src) (a b : BoundArg) :
+    s.window a b =
+      if s.len = 0 then .ok s
+      else if a.invalid || b.invalid then .error .runtimeError
+      else if a = .other ∨ b = .other then .error .typeError
+      else .ok (s.getitem a.toBound b.toBound) := by
+  unfold Src.window
+  by_cases h0 : s.len = 0
+  · simp [h0]
+  · simp only [h0, ↓reduceIte]
+    have hg : ∀ a' b' : Bound, s.getitem a' b' =
+        s.slice (resolve s.start s.stop s.start a') (resolve s.start s.stop s.stop b') := by
+      intro a' b'; unfold Src.getitem; rw [if_neg h0]
+    cases a with
+    | none =>
+      cases b with
+      | none => simp [toTimestamp, BoundArg.invalid, BoundArg.toBound, hg, resolve]
+      | int t => simp [toTimestamp, BoundArg.invalid, BoundArg.toBound, hg, resolve]
+      | other => simp [toTimestamp, BoundArg.invalid]
+      | str sb =>
+        cases hb : parseTime sb <;> simp [toTimestamp, BoundArg.invalid, BoundArg.toBound, hg, resolve, hb]
+    | int ta =>
+      cases b with
+      | none => simp [toTimestamp, BoundArg.invalid, BoundArg.toBound, hg, resolve]
+      | int t => simp [toTimestamp, BoundArg.invalid, BoundArg.toBound, hg, resolve]
+      | other => simp [toTimestamp, BoundArg.invalid]
+      | str sb =>
+        cases hb : parseTime sb <;> simp [toTimestamp, BoundArg.invalid, BoundArg.toBound, hg, resolve, hb]
+    | other =>
+      cases b with
+      | none => simp [toTimestamp, BoundArg.invalid]
+      | int t => simp [toTimestamp, BoundArg.invalid]
+      | other => simp [toTimestamp, BoundArg.invalid]
+      | str sb =>
+        cases hb : parseTime sb <;> simp [toTimestamp, BoundArg.invalid, hb]
+    | str sa =>
+      cases ha : parseTime sa with
+      | none => simp [toTimestamp, BoundArg.invalid, ha]
+      | some na =>
+        cases b with
+        | none => simp [toTimestamp, BoundArg.invalid, BoundArg.toBound, hg, resolve, ha]
+        | int t => simp [toTimestamp, BoundArg.invalid, BoundArg.toBound, hg, resolve, ha]
+        | other => simp [toTimestamp, BoundArg.invalid, ha]
+        | str sb =>
+          cases hb : parseTime sb <;> simp [toTimestamp, BoundArg.invalid, BoundArg.toBound, hg, resolve, ha, hb]
+
+
+theorem getitemFull_obj (s : Src) (a b : BoundArg) :
+    s.getitemFull (.obj a b) = s.getitemFull (.slice a b false) := rfl
+theorem getitemFull_step (s : Src) (a b : BoundArg) : s.getitemFull (.slice a b true) = .error .indexError := rfl
+theorem getitemFull_scalar (s : Src) : s.getitemFull .scalar = .error .indexError := rfl
+
+/-- The property at the level of `Slice.__getitem__`: whenever indexing with a slice (or an object with
+    start/stop) succeeds, the result holds exactly the samples inside the resolved window. -/
+theorem getitemFull_window_spec (s : Src) (hdt : ∀ c, s = .cont c → 0 < c.dt) (a b : BoundArg) (r : Src)
+    (hr : s.getitemFull (.slice a b false) = .ok r) :
+    r.samples = s.samples.filter
+      (inWin (resolve s.start s.stop s.start a.toBound) (resolve s.start s.stop s.stop b.toBound)) := by
+  have ht := window_table s a b
+  simp only [Src.getitemFull, Bool.false_eq_true, ↓reduceIte] at hr
+  rw [ht] at hr
+  by_cases h0 : s.len = 0
+  · rw [if_pos h0] at hr
+    injection hr with hr; subst hr
+    have : s.samples = [] := List.length_eq_zero_iff.mp (by rw [← len_eq_samples_length]; exact h0)
+    rw [this]; rfl
+  · rw [if_neg h0] at hr
+    split at hr
+    · cases hr
+    · split at hr
+      · cases hr
+      · injection hr with hr; subst hr
+        exact getitem_spec s h0 hdt _ _
+
+/-- A boolean mask keeps exactly the flagged samples (by position), or raises when the lengths differ. -/
+theorem applyMask_spec (l : List Sample) (m : List Bool) :
+    applyMask l m = if l.length = m.length then some (maskSpec l m) else none := by
+  unfold applyMask
+  split
+  · rename_i h; rw [zipMask_eq l m h]
+  · rfl
+
+/-- `_apply_mask` of every source kind. -/
+theorem src_applyMask_table (s : Src) (m : List Bool) :
+    s.applyMask m =
+      match s with
+      | .tags _ => .error .notImplemented
+      | _ => if s.len = m.length then .ok (.ts (maskSpec s.samples m)) else .error .indexError := by
+  cases s with
+  | tags t => rfl
+  | cont c =>
+    simp only [Src.applyMask, applyMask_spec, len_eq_samples_length]
+    by_cases h : (Src.cont c).samples.length = m.length
+    · simp only [h, ↓reduceIte]
+    · simp only [h, ↓reduceIte]
+  | ts l =>
+    simp only [Src.applyMask, applyMask_spec, len_eq_samples_length]
+    by_cases h : (Src.ts l).samples.length = m.length
+    · simp only [h, ↓reduceIte]
+    · simp only [h, ↓reduceIte]
+
+
+/-! ## Deepening round D: the time-string grammar -/
+
+/-- **The hand-written matcher accepts exactly the language of the regular expression, with the same captures.** -/
+theorem matchBody_iff (cs : List Char) (toks : List Tok) : matchBody cs = some toks ↔ BodyMatch cs toks := by
+  constructor
+  · intro h
+    have h' := h
+    unfold matchBody at h'
+    split at h'
+    · cases h'
+    · rename_i toks' trailing hlex
+      obtain ⟨gs, post, hwf, hp, hcs, hts, htr⟩ := lexToks_sound _ _ _ _ hlex
+      subst hcs
+      rw [matchBody_eq gs post hwf hp] at h
+      obtain ⟨hchk, hab⟩ := ite_some_eq h
+      subst hab
+      refine body_of_canon gs post ((checksG_iff gs post hwf hp _ ?_).mp hchk)
+      intro g hg
+      cases gs with
+      | nil => simp at hg
+      | cons g' gs' =>
+        simp only [List.head?_cons, Option.some.injEq] at hg; subst hg
+        have := leading_eq g' (hwf g' (by simp)) (strsG gs' ++ post)
+        simpa [strsG, List.append_assoc] using this
+  · intro h
+    obtain ⟨gs, post, hcs, hc, htk⟩ := canon_of_body cs toks h
+    obtain ⟨hwf, hp⟩ := canonTail_wf 0 gs post hc.1
+    subst hcs; subst htk
+    rw [matchBody_eq gs post hwf hp, if_pos]
+    refine (checksG_iff gs post hwf hp _ ?_).mpr hc
+    intro g hg
+    cases gs with
+    | nil => simp at hg
+    | cons g' gs' =>
+      simp only [List.head?_cons, Option.some.injEq] at hg; subst hg
+      have := leading_eq g' (hwf g' (by simp)) (strsG gs' ++ post)
+      simpa [strsG, List.append_assoc] using this
+
+
+/-- Two ways of matching the same text capture the same numbers and units. -/
+theorem captures_unique (cs : List Char) (t1 t2 : List Tok) (h1 : BodyMatch cs t1) (h2 : BodyMatch cs t2) :
+    t1 = t2 := by
+  have a := (matchBody_iff cs t1).mpr h1
+  have b := (matchBody_iff cs t2).mpr h2
+  rw [a] at b; injection b
+
+/-- **The language and the value of `Timeindex`'s regular expression**: an optional `-`, then the body; the value is
+    the sum over the captured groups of `⌊number × ratio⌋`, negated after a `-`. -/
+def TimeString (cs : List Char) (v : Int) : Prop :=
+  ∃ body toks, BodyMatch body toks ∧
+    ((cs = body ∧ v = (((toks.map tokNs).sum : Nat) : Int)) ∨
+     (cs = '-' :: body ∧ v = -(((toks.map tokNs).sum : Nat) : Int)))
+
+theorem matchFull_iff (cs : List Char) (v : Int) : matchFull cs = some v ↔ TimeString cs v := by
+  constructor
+  · intro h
+    unfold matchFull at h
+    split at h
+    · cases h
+    · rename_i toks hb
+      injection h with h
+      have hbm := (matchBody_iff _ _).mp hb
+      refine ⟨(splitSign cs).2, toks, hbm, ?_⟩
+      unfold splitSign at h hb hbm ⊢
+      split at h
+      · right; exact ⟨rfl, by simpa using h.symm⟩
+      · left; exact ⟨rfl, by simpa using h.symm⟩
+  · rintro ⟨body, toks, hbm, h⟩
+    have hb := (matchBody_iff _ _).mpr hbm
+    rcases h with ⟨hcs, hv⟩ | ⟨hcs, hv⟩
+    · subst hcs
+      have hs : splitSign cs = (false, cs) := by
+        unfold splitSign
+        split
+        · rename_i r; exact absurd rfl (body_not_minus _ toks hbm r)
+        · rfl
+      unfold matchFull
+      rw [hs]; simp only [hb, hv]; rfl
+    · subst hcs
+      unfold matchFull
+      simp only [splitSign, hb, hv]; rfl
+
+/-- `Timeindex(s)`: the whole string is a time string, or — Python's `$` — it is one followed by a single newline. -/
+theorem parseTime_spec (s : String) (v : Int) :
+    parseTime s = some v ↔
+      TimeString s.toList v ∨
+      ((∀ w, ¬ TimeString s.toList w) ∧ ∃ body, s.toList = body ++ ['\n'] ∧ TimeString body v) := by
+  cases hm : matchFull s.toList with
+  | some w =>
+    have hp : parseTime s = some w := by simp only [parseTime, hm]
+    rw [hp]
+    have hw := (matchFull_iff _ _).mp hm
+    constructor
+    · intro h; injection h with h; subst h; exact Or.inl hw
+    · rintro (h | ⟨h, _⟩)
+      · have := (matchFull_iff _ _).mpr h; rw [hm] at this; exact this
+      · exact absurd hw (h w)
+  | none =>
+    have hp : parseTime s = match s.toList.getLast? with
+        | some '\n' => matchFull s.toList.dropLast
+        | _ => none := by simp only [parseTime, hm]; rfl
+    rw [hp]
+    have hnone : ∀ w, ¬ TimeString s.toList w := by
+      intro w hw; have := (matchFull_iff _ _).mpr hw; rw [hm] at this; cases this
+    constructor
+    · intro h
+      right
+      refine ⟨hnone, ?_⟩
+      split at h
+      · rename_i hl
+        obtain ⟨ys, hys⟩ := List.getLast?_eq_some_iff.mp hl
+        refine ⟨s.toList.dropLast, ?_, (matchFull_iff _ _).mp h⟩
+        rw [hys]; simp
+      · cases h
+    · rintro (h | ⟨_, body, hb, hv⟩)
+      · exact absurd h (hnone v)
+      · have hl : s.toList.getLast? = some '\n' := by rw [hb]; simp
+        have hd : s.toList.dropLast = body := by rw [hb]; simp
+        split
+        · rw [hd]; exact (matchFull_iff _ _).mpr hv
+        · rename_i hne; exact absurd hl (hne)
+
+
+/-- non-vacuity: "1.5s" as a match of the regular expression (whole part `1`, a dot, decimals `5`, unit `s`) -/
+example : BodyMatch "1.5s".toList [⟨⟨15, 1⟩, 3⟩] :=
+  BodyMatch.absent _ _ (TailMatch.absent 1 [] _ _ (by omega) rfl (TailMatch.absent 2 [] _ _ (by omega) rfl
+    (TailMatch.present 3 [] "1.5s".toList [] _ [] (by omega) rfl
+      (GroupMatch.mk ['1'] ['5'] [] true rfl rfl (by simp) rfl)
+      (TailMatch.absent 4 [] _ _ (by omega) rfl (TailMatch.absent 5 [] _ _ (by omega) rfl
+        (TailMatch.absent 6 [] _ _ (by omega) rfl TailMatch.done))))))
+example : TimeString "-1m 30s".toList (-90000000000) := (matchFull_iff _ _).mp (by decide)
+example : ¬ TimeString "1ns ".toList 1 := fun h => by
+  have := (matchFull_iff _ _).mpr h; revert this; decide
+
+/-! ## Deepening round D: the value of a group -/
+
+/-- The digit reader computes the positional decimal value. -/
+theorem digitsToNat_eq (ds : List Char) : digitsToNat ds = decValue ds := by
+  unfold digitsToNat; rw [foldl_digits]; simp
+
+/-- A group contributes the whole number of nanoseconds in `number × ratio`, the number being the exact decimal
+    `mant / 10^decimals`: `tokNs ≤ mant·ratio / 10^decimals < tokNs + 1`, stated without division. -/
+theorem tokNs_floor (t : Tok) (r : Nat) (hr : (units[t.unit]?).map (·.2) = some r) :
+    tokNs t * 10 ^ t.num.decimals ≤ t.num.mant * r ∧ t.num.mant * r < (tokNs t + 1) * 10 ^ t.num.decimals := by
+  unfold tokNs
+  rw [hr]
+  simp only [Option.getD_some]
+  have hpos : 0 < 10 ^ t.num.decimals := Nat.pow_pos (by omega)
+  constructor
+  · exact Nat.div_mul_le_self _ _
+  · have := Nat.lt_mul_div_succ (t.num.mant * r) hpos
+    rw [Nat.mul_comm (10 ^ t.num.decimals)] at this
+    exact this
+
+example : tokNs ⟨⟨41, 1⟩, 3⟩ = 4100000000 := by decide
+
+/-! ## Deepening round D: invariants through every way of indexing; chains -/
+
+/-- The samples of a well-formed continuous or time-series source are in chronological order. -/
+theorem wf_samples_sorted (s : Src) (h : s.WF) (hk : ∀ t, s ≠ .tags t) :
+    s.samples.Pairwise (fun x y => x.1 ≤ y.1) := by
+  cases s with
+  | cont c => exact samplesFrom_sorted c.dt h c.data c.start
+  | ts l => exact h
+  | tags t => exact absurd rfl (hk t)
+
+/-- A boolean mask yields a well-formed (chronological) time series. -/
+theorem applyMask_wf (s : Src) (h : s.WF) (m : List Bool) (r : Src) (hr : s.applyMask m = .ok r) : r.WF := by
+  cases s with
+  | tags t => cases hr
+  | cont c =>
+    simp only [Src.applyMask] at hr
+    split at hr
+    · rename_i l hl
+      injection hr with hr; subst hr
+      exact List.Pairwise.sublist (mask_sublist _ _ _ hl) (samplesFrom_sorted c.dt h c.data c.start)
+    · cases hr
+  | ts l0 =>
+    simp only [Src.applyMask] at hr
+    split at hr
+    · rename_i l hl
+      injection hr with hr; subst hr
+      exact List.Pairwise.sublist (mask_sublist _ _ _ hl) h
+    · cases hr
+
+theorem window_wf (s : Src) (h : s.WF) (a b : BoundArg) (r : Src) (hr : s.window a b = .ok r) : r.WF := by
+  rw [window_table] at hr
+  split at hr
+  · injection hr with hr; subst hr; exact h
+  · split at hr
+    · cases hr
+    · split at hr
+      · cases hr
+      · injection hr with hr; subst hr; exact wf_getitem s h _ _
+
+/-- **Every way of indexing preserves the invariants** (positive period / chronological order / time tags inside
+    their reported bounds): whatever `Slice.__getitem__` returns is again a well-formed source, so all theorems
+    above apply to chains of any length. -/
+theorem getitemFull_wf (s : Src) (h : s.WF) (it : Item) (r : Src) (hr : s.getitemFull it = .ok r) : r.WF := by
+  cases it with
+  | mask m => exact applyMask_wf s h m r hr
+  | slice a b step =>
+    cases step with
+    | true => cases hr
+    | false => exact window_wf s h a b r hr
+  | obj a b => exact window_wf s h a b r hr
+  | scalar => cases hr
+
+/-- derive → derive → query: a mask and then a window keep exactly the flagged samples inside the window. -/
+theorem mask_then_window (s : Src) (m : List Bool) (a b : BoundArg) (r r' : Src)
+    (h1 : s.getitemFull (.mask m) = .ok r) (h2 : r.getitemFull (.slice a b false) = .ok r') :
+    r'.samples = (maskSpec s.samples m).filter
+      (inWin (resolve r.start r.stop r.start a.toBound) (resolve r.start r.stop r.stop b.toBound)) := by
+  have hr : r = .ts (maskSpec s.samples m) := by
+    simp only [Src.getitemFull, src_applyMask_table] at h1
+    cases s with
+    | tags t => cases h1
+    | cont c =>
+      simp only at h1
+      split at h1
+      · injection h1 with h1; exact h1.symm
+      · cases h1
+    | ts l =>
+      simp only at h1
+      split at h1
+      · injection h1 with h1; exact h1.symm
+      · cases h1
+  have := getitemFull_window_spec r (by intro c hc; rw [hr] at hc; cases hc) a b r' h2
+  rw [this]
+  subst hr
+  rfl
+
+/-- … and a window and then a mask keep the flagged ones among the samples inside the window. -/
+theorem window_then_mask (s : Src) (hdt : ∀ c, s = .cont c → 0 < c.dt) (m : List Bool) (a b : BoundArg) (r r' : Src)
+    (h1 : s.getitemFull (.slice a b false) = .ok r) (h2 : r.getitemFull (.mask m) = .ok r') :
+    r'.samples = maskSpec (s.samples.filter
+      (inWin (resolve s.start s.stop s.start a.toBound) (resolve s.start s.stop s.stop b.toBound))) m := by
+  have hs := getitemFull_window_spec s hdt a b r h1
+  simp only [Src.getitemFull, src_applyMask_table] at h2
+  cases r with
+  | tags t => cases h2
+  | cont c =>
+    simp only at h2
+    split at h2
+    · injection h2 with h2; rw [← h2, ← hs]; rfl
+    · cases h2
+  | ts l =>
+    simp only at h2
+    split at h2
+    · injection h2 with h2; rw [← h2, ← hs]; rfl
+    · cases h2
+
+example : (Src.ts [(3, 0), (5, 1), (5, 2), (9, 3)]).getitemFull (.mask [true, false, true, true])
+    = .ok (.ts [(3, 0), (5, 2), (9, 3)]) := by rfl
+example : (Src.ts [(3, 0), (5, 2), (9, 3)]).getitemFull (.slice (.int 4) .none false)
+    = .ok (.ts [(5, 2), (9, 3)]) := by rfl
+
+
+/-! ## Deepening round D: Python's `$` and the literal regular expression -/
+
+theorem timeString_drop_newline (b : List Char) (w : Int) (h : TimeString (b ++ ['\n']) w) : TimeString b w := by
+  obtain ⟨body, toks, hbm, hh⟩ := h
+  rcases hh with ⟨hcs, hv⟩ | ⟨hcs, hv⟩
+  · subst hcs
+    exact ⟨b, toks, body_drop_newline b toks hbm, Or.inl ⟨rfl, hv⟩⟩
+  · cases b with
+    | nil => simp at hcs
+    | cons x xs =>
+      simp only [List.cons_append, List.cons.injEq] at hcs
+      obtain ⟨hx, hxs⟩ := hcs
+      subst hx; subst hxs
+      exact ⟨xs, toks, body_drop_newline xs toks hbm, Or.inr ⟨rfl, hv⟩⟩
+
+theorem timeString_functional (cs : List Char) (v w : Int) (h1 : TimeString cs v) (h2 : TimeString cs w) : v = w := by
+  have a := (matchFull_iff _ _).mpr h1
+  have b := (matchFull_iff _ _).mpr h2
+  rw [a] at b; injection b
+
+/-- `Timeindex(s).total_ns = v` exactly when `s`, or `s` without one final newline (Python's `$`), is a time string
+    of value `v`; the two readings never disagree. -/
+theorem parseTime_iff (s : String) (v : Int) :
+    parseTime s = some v ↔
+      TimeString s.toList v ∨ ∃ body, s.toList = body ++ ['\n'] ∧ TimeString body v := by
+  rw [parseTime_spec]
+  constructor
+  · rintro (h | ⟨_, h⟩)
+    · exact Or.inl h
+    · exact Or.inr h
+  · rintro (h | ⟨body, hb, hv⟩)
+    · exact Or.inl h
+    · by_cases hw : ∃ w, TimeString s.toList w
+      · obtain ⟨w, hw⟩ := hw
+        have := timeString_drop_newline body w (by rw [← hb]; exact hw)
+        have e := timeString_functional body v w hv this
+        subst e
+        exact Or.inl hw
+      · exact Or.inr ⟨fun w h => hw ⟨w, h⟩, body, hb, hv⟩
+
+/-- **The specification `BodyMatch` is the regular expression itself**: a text matches the pattern
+    `(G_d)?\s*(G_h)?\s*…\s*(G_ns)?` (textbook semantics) exactly when it has a `BodyMatch` derivation. -/
+theorem bodyMatch_iff_rx (cs : List Char) : rxBody.Matches cs ↔ ∃ toks, BodyMatch cs toks := by
+  have h6 := tail_base
+  have h5 := tail_step 5 (by omega) _ _ h6
+  have h4 := tail_step 4 (by omega) _ _ h5
+  have h3 := tail_step 3 (by omega) _ _ h4
+  have h2 := tail_step 2 (by omega) _ _ h3
+  have h1 := tail_step 1 (by omega) _ _ h2
+  unfold rxBody
+  simp only [rxJoin] at h1 ⊢
+  rw [seq_iff]
+  constructor
+  · rintro ⟨g, rest, rfl, hg, hrest⟩
+    obtain ⟨toks, ht⟩ := (h1 rest).mp hrest
+    rcases (group_iff 0 g).mp hg with rfl | ⟨tok, hg⟩
+    · exact ⟨toks, BodyMatch.absent _ _ ht⟩
+    · exact ⟨tok :: toks, BodyMatch.present g rest tok toks hg ht⟩
+  · rintro ⟨toks, h⟩
+    cases h with
+    | absent _ _ ht => exact ⟨[], cs, rfl, (group_iff 0 []).mpr (Or.inl rfl), (h1 cs).mpr ⟨toks, ht⟩⟩
+    | present g rest tok toks hg ht =>
+      exact ⟨g, rest, rfl, (group_iff 0 g).mpr (Or.inr ⟨tok, hg⟩), (h1 rest).mpr ⟨_, ht⟩⟩
+
+/-- The time strings are exactly the texts the whole pattern `-?(G_d)?\s*…\s*(G_ns)?` matches. -/
+theorem timeString_iff_rx (cs : List Char) : rxFull.Matches cs ↔ ∃ v, TimeString cs v := by
+  unfold rxFull
+  rw [seq_iff]
+  constructor
+  · rintro ⟨sg, body, rfl, hs, hb⟩
+    obtain ⟨toks, hbm⟩ := (bodyMatch_iff_rx body).mp hb
+    rcases (opt_iff _ _).mp hs with rfl | hs
+    · exact ⟨_, body, toks, hbm, Or.inl ⟨rfl, rfl⟩⟩
+    · obtain ⟨c, rfl, hc⟩ := (cls_iff _ _).mp hs
+      have : c = '-' := by simpa using hc
+      subst this
+      exact ⟨_, body, toks, hbm, Or.inr ⟨rfl, rfl⟩⟩
+  · rintro ⟨v, body, toks, hbm, h⟩
+    have hb := (bodyMatch_iff_rx body).mpr ⟨toks, hbm⟩
+    rcases h with ⟨rfl, _⟩ | ⟨rfl, _⟩
+    · exact ⟨[], cs, rfl, .opt_none _, hb⟩
+    · exact ⟨['-'], body, rfl, .opt_some _ _ (.cls _ '-' (by simp)), hb⟩
+
+/-- The hand-written matcher accepts exactly the texts the regular expression matches. -/
+theorem matchFull_accepts_iff_rx (cs : List Char) : (matchFull cs).isSome = true ↔ rxFull.Matches cs := by
+  rw [timeString_iff_rx, Option.isSome_iff_exists]
+  exact exists_congr fun v => matchFull_iff cs v
+
+
+/-- non-vacuity: the regular expression matches "-1m 30s" and not "1ns " (through the equivalence) -/
+example : rxFull.Matches "-1m 30s".toList := (matchFull_accepts_iff_rx _).mp (by decide)
+example : ¬ rxFull.Matches "1ns ".toList := fun h => by
+  have := (matchFull_accepts_iff_rx _).mpr h; revert this; decide
+
+/-! ## Deepening round D: what a result reports as its begin and end; chains of any depth -/
+
+/-- The start a sliced continuous channel reports is the first grid timestamp at or after the window's start
+    (and never before the channel's own start): it lies on the grid, is `≥ a`, and no earlier grid point is. -/
+theorem alignedStart_least (c : Cont) (hdt : 0 < c.dt) (a : Int) :
+    (∃ k : Nat, alignedStart c a = c.start + k * c.dt) ∧ a ≤ alignedStart c a ∧
+    ∀ j : Nat, a ≤ c.start + j * c.dt → alignedStart c a ≤ c.start + j * c.dt := by
+  rw [alignedStart_eq c hdt a]
+  refine ⟨⟨_, rfl⟩, ?_, ?_⟩
+  · by_cases h : 0 ≤ cdiv (a - c.start) c.dt
+    · have : ((cdiv (a - c.start) c.dt).toNat : Int) = cdiv (a - c.start) c.dt := Int.toNat_of_nonneg h
+      rw [this]
+      have := (cdiv_le_iff hdt (cdiv (a - c.start) c.dt)).mp (Int.le_refl _)
+      omega
+    · have h0 : (cdiv (a - c.start) c.dt).toNat = 0 := by omega
+      rw [h0]
+      have : cdiv (a - c.start) c.dt ≤ 0 := by omega
+      have := (cdiv_le_iff hdt 0).mp this
+      simp at this ⊢
+      omega
+  · intro j hj
+    have h1 : cdiv (a - c.start) c.dt ≤ j := (cdiv_le_iff hdt j).mpr (by omega)
+    have h2 : ((cdiv (a - c.start) c.dt).toNat : Int) ≤ j := by omega
+    have := Int.mul_le_mul_of_nonneg_right h2 (Int.le_of_lt hdt)
+    omega
+
+/-- What the result of slicing reports as its begin and end, per kind (these are what `None` and relative time
+    strings mean at the next level): continuous — the first kept timestamp and one period after the last kept one;
+    time series — the first kept timestamp and one nanosecond after the last kept one. -/
+theorem cont_bounds_tight (c : Cont) (hne : c.data ≠ []) :
+    c.samples.head?.map (·.1) = some c.start ∧ c.samples.getLast?.map (·.1) = some (c.stop - c.dt) := by
+  cases hd : c.data with
+  | nil => exact absurd hd hne
+  | cons v vs =>
+    have := samplesFrom_ends c.dt v vs c.start
+    unfold Cont.samples Cont.stop
+    rw [hd]
+    refine ⟨this.1, ?_⟩
+    rw [this.2]
+    simp only [List.length_cons, Option.some.injEq]
+    rw [Int.natCast_add, Int.add_mul]; omega
+
+theorem ts_bounds_tight (l : List Sample) (hne : l ≠ []) :
+    l.head?.map (·.1) = some (Src.ts l).start ∧ l.getLast?.map (·.1 + 1) = some (Src.ts l).stop := by
+  cases l with
+  | nil => exact absurd rfl hne
+  | cons x xs =>
+    simp only [Src.start, Src.stop]
+    constructor
+    · simp
+    · cases h : (x :: xs).getLast? with
+      | none => simp at h
+      | some y => simp
+
+/-- Two nested indexings with any kind of bound (`None`, timestamps, time strings): the second one's bounds are
+    resolved against the begin and end of the intermediate slice. -/
+theorem getitem_getitem_spec (s : Src) (hdt : ∀ c, s = .cont c → 0 < c.dt) (a b c d : Bound)
+    (h0 : s.len ≠ 0) (h1 : (s.getitem a b).len ≠ 0) :
+    ((s.getitem a b).getitem c d).samples =
+      (s.samples.filter (inWin (resolve s.start s.stop s.start a) (resolve s.start s.stop s.stop b))).filter
+        (inWin (resolve (s.getitem a b).start (s.getitem a b).stop (s.getitem a b).start c)
+               (resolve (s.getitem a b).start (s.getitem a b).stop (s.getitem a b).stop d)) := by
+  have hdt' : ∀ c', s.getitem a b = .cont c' → 0 < c'.dt := by
+    unfold Src.getitem; rw [if_neg h0]; exact slice_keeps_dt s hdt _ _
+  rw [getitem_spec _ h1 hdt', getitem_spec s h0 hdt]
+
+example : (((Src.ts [(1, 0), (2, 1), (4, 2), (7, 3)]).getitem (.ts 2) .none).getitem (.rel 1) (.rel (-1))).samples
+    = [(4, 2)] := by decide
+
+
+/-- `s[a₁:b₁][a₂:b₂]…[aₙ:bₙ]` -/
+def chain (s : Src) (ws : List (Option Int × Option Int)) : Src :=
+  ws.foldl (fun s w => s.getitem (optBound w.1) (optBound w.2)) s
+
+/-- **Slicing composes, to any depth**: a chain of windows (integers or `None` anywhere) on a well-formed source
+    keeps exactly the samples that satisfy every bound given along the way — the intersection of the windows. -/
+theorem chain_spec (ws : List (Option Int × Option Int)) (s : Src) (h : s.WF) :
+    (chain s ws).samples = s.samples.filter (fun x => ws.all fun w => okLo w.1 x && okHi w.2 x) := by
+  induction ws generalizing s with
+  | nil =>
+    simp only [chain, List.foldl_nil, List.all_nil]
+    exact (List.filter_eq_self.mpr (by intros; rfl)).symm
+  | cons w ws ih =>
+    have := ih (s.getitem (optBound w.1) (optBound w.2)) (wf_getitem s h _ _)
+    unfold chain at this ⊢
+    rw [List.foldl_cons, this, getitem_opt_spec s h, List.filter_filter]
+    apply List.filter_congr
+    intro x _
+    simp only [List.all_cons]
+    rw [Bool.and_comm]
+
+/-- The order of the windows does not matter. -/
+theorem chain_perm (ws ws' : List (Option Int × Option Int)) (hp : ws.Perm ws') (s : Src) (h : s.WF) :
+    (chain s ws).samples = (chain s ws').samples := by
+  rw [chain_spec ws s h, chain_spec ws' s h]
+  apply List.filter_congr
+  intro x _
+  exact hp.all_eq
+
+/-- Slicing twice with the same window changes nothing more. -/
+theorem chain_idem (w : Option Int × Option Int) (s : Src) (h : s.WF) :
+    (chain s [w, w]).samples = (chain s [w]).samples := by
+  rw [chain_spec _ s h, chain_spec _ s h]
+  apply List.filter_congr
+  intro x _
+  simp
+
+example : (chain (.cont ⟨1000, 10, [0,1,2,3,4,5,6,7,8,9]⟩) [(some 1005, none), (none, some 1075), (some 1021, some 2000)]).samples
+    = [(1030, 3), (1040, 4), (1050, 5), (1060, 6), (1070, 7)] := by decide
+
+
+
+/-! ### non-vacuity of the hypotheses used in this round -/
+example : ([1, 2, 4] : List Int).Pairwise (· ≤ ·) := by decide
+example : (Src.tags (Tags.init [1, 2, 4] none none)).WF := tags_init_wf _ (by decide)
+example : (Src.tags ((Tags.init [1, 2, 4] none none).slice 2 9)).WF :=
+  wf_slice _ (tags_init_wf _ (by decide)) 2 9
+example : (0 : Int) < (⟨1000, 10, [0, 1, 2]⟩ : Cont).dt := by decide
+example : (⟨1000, 10, [0, 1, 2]⟩ : Cont).data ≠ [] := by decide
+example : ([(3, 0), (5, 1)] : List Sample) ≠ [] := by decide
+example : (units[3]?).map (·.2) = some 1000000000 := rfl
+example : TimeString ("1s".toList ++ ['\n']) 1000000000 := (matchFull_iff _ _).mp (by decide)
+example : (Src.ts [(3, 0), (5, 1), (5, 2), (9, 3)]).getitemFull (.slice (.int 4) (.str "-1ns") false)
+    = .ok (.ts [(5, 1), (5, 2)]) := by rfl
+example : (Src.ts [(5, 1), (5, 2)]).getitemFull (.mask [false, true]) = .ok (.ts [(5, 2)]) := by rfl
+example : (Src.cont ⟨7, 3, [0, 1, 2]⟩).len ≠ 0 ∧ ((Src.cont ⟨7, 3, [0, 1, 2]⟩).getitem (.ts 8) .none).len ≠ 0 := by decide
+
+
+/-! ## Deepening round D: 64-bit integers suffice -/
+
+/-- Every integer `Continuous.slice` (and the constructor of its result) computes, in evaluation order:
+    `start - self.start`, `… % dt`, `start + dt`, `… - fraction`, the aligned start, the three steps and the quotient of
+    `to_index` for both bounds, the clamped stop index, `len(data) * dt` and the new `stop`.
+    (A transcription of the code's expressions; the real code does not expose its intermediates.) -/
+def Cont.sliceTrace (c : Cont) (a b : Int) : List Int :=
+  let d := a - c.start
+  let fraction := d % c.dt
+  let a' := alignedStart c a
+  let n' : Int := ((c.slice a b).data.length : Nat)
+  [d, fraction, a + c.dt, a + c.dt - fraction, a',
+   a' - c.start, a' - c.start + c.dt, a' - c.start + c.dt - 1, toIndex c.start c.dt a',
+   b - c.start, b - c.start + c.dt, b - c.start + c.dt - 1, toIndex c.start c.dt b, max (toIndex c.start c.dt b) 0,
+   n' * c.dt, a' + n' * c.dt]
+
+/-- fits a signed 64-bit integer -/
+def isInt64 (x : Int) : Prop := -(2 ^ 63) ≤ x ∧ x < 2 ^ 63
+
+/-- **No 64-bit overflow below 2^62.**  For a channel and a window whose timestamps lie in `[0, 2^62]` and a period of
+    at most `2^60` ns, every integer the index arithmetic computes fits a signed 64-bit integer — so NumPy's `int64`
+    arithmetic (start times read from HDF5 attributes are `np.int64`) agrees with the unbounded integers of the model. -/
+theorem cont_slice_no_overflow (c : Cont) (a b : Int) (hdt : 0 < c.dt) (hdt' : c.dt ≤ 2 ^ 60)
+    (hs : 0 ≤ c.start) (hstop : c.stop ≤ 2 ^ 62) (ha : 0 ≤ a ∧ a ≤ 2 ^ 62) (hb : 0 ≤ b ∧ b ≤ 2 ^ 62) :
+    ∀ x ∈ c.sliceTrace a b, isInt64 x := by
+  have hlen : 0 ≤ (c.data.length : Int) * c.dt := Int.mul_nonneg (by omega) (by omega)
+  have hstart : c.start ≤ 2 ^ 62 := by unfold Cont.stop at hstop; omega
+  -- the fraction
+  have hf0 := Int.emod_nonneg (a - c.start) (by omega : c.dt ≠ 0)
+  have hf1 := Int.emod_lt_of_pos (a - c.start) hdt
+  -- the aligned start
+  have ha' : max a c.start ≤ alignedStart c a ∧ alignedStart c a ≤ 2 ^ 62 + 2 ^ 60 := by
+    unfold alignedStart
+    simp only
+    split <;> omega
+  -- the two quotients
+  have hi := ediv_bounds (alignedStart c a - c.start + c.dt - 1) c.dt hdt
+  have hj := ediv_bounds (b - c.start + c.dt - 1) c.dt hdt
+  -- the length of the result and its stop
+  have hn' : ((c.slice a b).data.length : Int) ≤ c.data.length := by
+    have := pySlice_length_le c.data (toIndex c.start c.dt (alignedStart c a)) (max (toIndex c.start c.dt b) 0)
+    simp only [Cont.slice]; omega
+  have hprod0 : 0 ≤ ((c.slice a b).data.length : Int) * c.dt := Int.mul_nonneg (by omega) (by omega)
+  have hprod : ((c.slice a b).data.length : Int) * c.dt ≤ (c.data.length : Int) * c.dt :=
+    Int.mul_le_mul_of_nonneg_right hn' (by omega)
+  have hstop' : alignedStart c a + ((c.slice a b).data.length : Int) * c.dt ≤ 2 ^ 62 + 2 ^ 60 := by
+    by_cases hne : (c.slice a b).data = []
+    · rw [hne]; simp only [List.length_nil]; omega
+    · have ht := (cont_bounds_tight (c.slice a b) hne).2
+      cases hl : (c.slice a b).samples.getLast? with
+      | none => rw [hl] at ht; simp at ht
+      | some y =>
+        rw [hl] at ht
+        simp only [Option.map_some, Option.some.injEq] at ht
+        have hy : y ∈ (Src.slice (.cont c) a b).samples := List.mem_of_getLast? hl
+        have hy' : y ∈ c.samples :=
+          (slice_sublist (.cont c) (by intro c' h; cases h; exact hdt) a b).subset hy
+        have := (mem_samplesFrom c.dt hdt c.data c.start y hy').2
+        have e : (c.slice a b).stop = alignedStart c a + ((c.slice a b).data.length : Int) * c.dt := rfl
+        have e2 : (c.slice a b).dt = c.dt := rfl
+        unfold Cont.stop at hstop
+        omega
+  intro x hx
+  simp only [Cont.sliceTrace, toIndex, List.mem_cons, List.not_mem_nil, or_false] at hx
+  unfold Cont.stop at hstop
+  unfold isInt64
+  have hi1 := hi.1; have hi2 := hi.2; have hj1 := hj.1; have hj2 := hj.2
+  rcases hx with h | h | h | h | h | h | h | h | h | h | h | h | h | h | h | h <;> subst h <;> omega
+
+/-- non-vacuity: a channel recorded in 2024 at 78.125 kHz -/
+example : (0 : Int) < (⟨1700000000000000000, 12800, [0, 1, 2]⟩ : Cont).dt ∧
+    (⟨1700000000000000000, 12800, [0, 1, 2]⟩ : Cont).stop ≤ 2 ^ 62 := by decide
+
+
+/-! ## Deepening round D: translation invariance -/
+
+/-- the same recording, started `δ` ns later -/
+def Src.shift (δ : Int) : Src → Src
+  | .cont c => .cont { c with start := c.start + δ }
+  | .ts l => .ts (l.map fun x => (x.1 + δ, x.2))
+  | .tags t => .tags ⟨t.data.map (· + δ), t.start + δ, t.stop + δ⟩
+
+def Bound.shift (δ : Int) : Bound → Bound
+  | .none => .none
+  | .ts t => .ts (t + δ)
+  | .rel ns => .rel ns
+
+theorem alignedStart_shift (c : Cont) (a δ : Int) :
+    alignedStart { c with start := c.start + δ } (a + δ) = alignedStart c a + δ := by
+  unfold alignedStart
+  simp only
+  have e : a + δ - (c.start + δ) = a - c.start := by omega
+  rw [e]
+  split <;> omega
+
+theorem toIndex_shift (s dt t δ : Int) : toIndex (s + δ) dt (t + δ) = toIndex s dt t := by
+  unfold toIndex
+  have e : t + δ - (s + δ) = t - s := by omega
+  rw [e]
+
+theorem slice_shift (s : Src) (a b δ : Int) : (s.shift δ).slice (a + δ) (b + δ) = (s.slice a b).shift δ := by
+  cases s with
+  | cont c =>
+    simp only [Src.shift, Src.slice, Cont.slice, alignedStart_shift]
+    have e1 := toIndex_shift c.start c.dt (alignedStart c a) δ
+    have e2 := toIndex_shift c.start c.dt b δ
+    simp only [e1, e2]
+  | ts l =>
+    simp only [Src.shift, Src.slice, tsSlice, List.filter_map]
+    have hf : (inWin (a + δ) (b + δ) ∘ fun x : Sample => (x.1 + δ, x.2)) = inWin a b := by
+      funext x
+      simp only [Function.comp, inWin]
+      have h1 : decide (a + δ ≤ x.1 + δ) = decide (a ≤ x.1) := by
+        by_cases h : a ≤ x.1 <;> simp [h] <;> omega
+      have h2 : decide (x.1 + δ < b + δ) = decide (x.1 < b) := by
+        by_cases h : x.1 < b <;> simp [h] <;> omega
+      rw [h1, h2]
+    rw [hf]
+  | tags t =>
+    simp only [Src.shift, Src.slice, Tags.slice, Tags.init, List.filter_map]
+    have hf : ((fun x => decide (a + δ ≤ x) && decide (x < b + δ)) ∘ fun x => x + δ) =
+        fun x => decide (a ≤ x) && decide (x < b) := by
+      funext x
+      simp only [Function.comp]
+      have h1 : decide (a + δ ≤ x + δ) = decide (a ≤ x) := by
+        by_cases h : a ≤ x <;> simp [h] <;> omega
+      have h2 : decide (x + δ < b + δ) = decide (x < b) := by
+        by_cases h : x < b <;> simp [h] <;> omega
+      rw [h1, h2]
+    rw [hf]
+    congr 2 <;> omega
+
+
+theorem shift_len (s : Src) (δ : Int) : (s.shift δ).len = s.len := by
+  cases s <;> simp [Src.shift, Src.len]
+
+theorem shift_start_stop (s : Src) (δ : Int) (h : s.len ≠ 0) :
+    (s.shift δ).start = s.start + δ ∧ (s.shift δ).stop = s.stop + δ := by
+  cases s with
+  | cont c =>
+    refine ⟨rfl, ?_⟩
+    show c.start + δ + (c.data.length : Int) * c.dt = c.start + (c.data.length : Int) * c.dt + δ
+    omega
+  | ts l =>
+    cases l with
+    | nil => simp [Src.len] at h
+    | cons x xs =>
+      simp only [Src.shift, Src.start, Src.stop, List.map_cons, List.head?_cons, Option.map_some, Option.getD_some,
+        true_and]
+      rw [← List.map_cons (f := fun x : Sample => (x.1 + δ, x.2)), List.getLast?_map]
+      cases hl : (x :: xs).getLast? with
+      | none => simp at hl
+      | some y => simp; omega
+  | tags t => exact ⟨rfl, rfl⟩
+
+theorem resolve_shift (f l d δ : Int) (b : Bound) :
+    resolve (f + δ) (l + δ) (d + δ) (b.shift δ) = resolve f l d b + δ := by
+  cases b with
+  | none => rfl
+  | ts t => rfl
+  | rel ns => simp only [Bound.shift, resolve]; split <;> omega
+
+/-- **Translation invariance of `Slice.__getitem__`.**  Recording the same data `δ` ns later and moving the absolute
+    bounds of the window by `δ` (`None` and relative time strings stay as they are) gives the same result, `δ` ns
+    later: only differences of timestamps matter. -/
+theorem getitem_shift (s : Src) (a b : Bound) (δ : Int) :
+    (s.shift δ).getitem (a.shift δ) (b.shift δ) = (s.getitem a b).shift δ := by
+  unfold Src.getitem
+  rw [shift_len]
+  by_cases h : s.len = 0
+  · rw [if_pos h, if_pos h]
+  · rw [if_neg h, if_neg h]
+    obtain ⟨e1, e2⟩ := shift_start_stop s δ h
+    rw [e1, e2, resolve_shift, resolve_shift, slice_shift]
+
+/-- … and the shifted source holds the same samples, `δ` ns later. -/
+theorem shift_timestamps (s : Src) (δ : Int) :
+    (s.shift δ).samples.map (·.1) = s.samples.map (·.1 + δ) := by
+  cases s with
+  | cont c =>
+    simp only [Src.shift, Src.samples, Cont.samples]
+    generalize c.start = t0
+    induction c.data generalizing t0 with
+    | nil => rfl
+    | cons v vs ih =>
+      simp only [samplesFrom, List.map_cons]
+      have := ih (t0 + c.dt)
+      have e : t0 + c.dt + δ = t0 + δ + c.dt := by omega
+      rw [e] at this
+      rw [this]
+  | ts l => simp [Src.shift, Src.samples]
+  | tags t => simp [Src.shift, Src.samples, Tags.samples]
+
+example : ((Src.cont ⟨1000, 10, [0, 1, 2, 3]⟩).shift 7).getitem (.ts 1022) (.rel (-1))
+    = ((Src.cont ⟨1000, 10, [0, 1, 2, 3]⟩).getitem (.ts 1015) (.rel (-1))).shift 7 := by decide
+
 
 end Verif.C01
